@@ -46,6 +46,11 @@ Proof. exact get_wk. Qed.
 Theorem C07_canonical_text_round_trip : forall t, is_canonical t = true ->
   exists e, parse_entry t = Val e /\ print_entry e = t.
 Proof. exact canonical_print_parse. Qed.
+(* ... and conversely: is_canonical decides exactly the texts that parse and print
+   back byte for byte, whatever they contain *)
+Theorem C07_canonical_text_iff : forall t, is_canonical t = true <->
+  exists e, parse_entry t = Val e /\ print_entry e = t.
+Proof. exact canonical_iff. Qed.
 (* ... and every generated text is of that form *)
 Theorem C07_printed_is_canonical : forall e, wk e -> values_ok e -> complete e -> is_canonical (print_entry e) = true.
 Proof. exact printed_is_canonical. Qed.
